@@ -47,7 +47,103 @@ def scenarios(ctx):
         ctx.rng.shuffle(gs)
         for i in range(0, len(gs), 150):
             scs.append({"kind": k, "len": ln, "geos": gs[i:i + 150], "seed": ctx.rng.randrange(10 ** 6)})
+    # multi-allelic records (kept with mav=True by polyphase / haplotagphase / compare): a few record shapes, every allele carried
+    for shape in MULTI_SHAPES:
+        for rep in range(2 if q else 10):
+            scs.append({"kind": 5, "len": 0, "multi": shape, "geos": [], "seed": ctx.rng.randrange(10 ** 6)})
     return scs
+
+
+# (REF length, [(kind of ALT relative to REF, parameters)]) - built on the actual reference bases in drive
+MULTI_SHAPES = ["del+snv", "nested-del", "snv+snv", "ins+ins", "del+mnp", "ins+snv"]
+
+
+def _multi_alleles(rng, ref, pos, shape):
+    """REF and ALT strings of a multi-allelic record at pos (all alleles pairwise different, indels unshiftable)"""
+    b = ref[pos:pos + 3]
+    other = lambda c: rng.choice([x for x in "ACGT" if x != c])
+    if shape == "del+snv":       # TC -> T, AC
+        return b[:2], [b[0], other(b[0]) + b[1]]
+    if shape == "nested-del":    # ACG -> A, AG
+        return b, [b[0], b[0] + b[2]]
+    if shape == "snv+snv":
+        x = other(b[0])
+        y = rng.choice([c for c in "ACGT" if c not in (b[0], x)])
+        return b[0], [x, y]
+    if shape == "ins+ins":
+        i1 = other(b[1])
+        if i1 == b[0]:
+            i1 = rng.choice([c for c in "ACGT" if c not in (b[0], b[1])])
+        i2 = rng.choice([c for c in "ACGT" if c != i1 and c != b[0]])
+        return b[0], [b[0] + i1, b[0] + i1 + i2] if i2 != b[1] else [b[0] + i1, b[0] + i1 + i1]
+    if shape == "del+mnp":       # TC -> T, AG
+        return b[:2], [b[0], other(b[0]) + other(b[1])]
+    if shape == "ins+snv":
+        i1 = rng.choice([c for c in "ACGT" if c not in (b[0], b[1])])
+        return b[0], [b[0] + i1, other(b[0])]
+    raise ValueError(shape)
+
+
+def _drive_multi(sc):
+    import pysam
+    from .. import world as W
+    from ..phaseworld import workdir
+    from whatshap.variants import ReadSetReader
+    from whatshap.core import NumericSampleIds
+    from whatshap.vcf import MultiallelicVcfVariant
+    rng = random.Random(sc["seed"])
+    while True:
+        ref = W.random_reference(rng, 140)
+        R, alts = _multi_alleles(rng, ref, P, sc["multi"])
+        if len(set([R] + alts)) == 3 and all(a != R for a in alts):
+            # deletions must be unshiftable in this context
+            if all(len(a) >= len(R) or W.deletion_unshiftable(ref, P, len(R) - len(a)) or len(R) - len(a) == 0 for a in alts):
+                break
+    reads, meta = [], {}
+    n = 0
+    for allele in (0, 1, 2):
+        alt = R if allele == 0 else alts[allele - 1]
+        v = W.Variant(P, R, alt)
+        if allele and v.kind == "complex":
+            continue
+        hp = W.Haplotype(ref, [v], [1 if allele else 0])
+        hp_p = hp.ref_to_hap(P)
+        alen = len(alt)
+        for so in (-14, -9, -5, -2, -1):
+            for eo in (1, 2, 5, 9, 14):
+                hs, he = hp_p + so, hp_p + alen + eo
+                if not (0 <= hs < he <= len(hp.seq)):
+                    continue
+                r = hp.read(hs, he)
+                if r is None:
+                    continue
+                pos0, ops, seq = r
+                n += 1
+                name = f"m{n:04d}"
+                reads.append({"name": name, "flag": 0, "ref": 0, "pos": pos0, "cigar": W.cigar_str(ops), "seq": seq, "rg": "rg1"})
+                blocks, end = _blocks(pos0, ops)
+                meta[name] = {"segs": [{"rs": pos0, "re": end, "cig": [[OPC[o], k] for o, k in ops], "qlen": len(seq), "blocks": blocks}],
+                              "allele": allele, "so": so, "eo": eo}
+    d = workdir()
+    try:
+        W.write_fasta(os.path.join(d, "ref.fa"), {"chr1": ref})
+        bam = W.write_bam(os.path.join(d, "r.bam"), [("chr1", len(ref))], reads, [{"ID": "rg1", "SM": "s1"}])
+        variants = [MultiallelicVcfVariant(P, R, alts)]
+        evs = []
+        for withref in (True, False):
+            rdr = ReadSetReader([bam], reference=None, numeric_sample_ids=NumericSampleIds())
+            rs = rdr.read("chr1", variants, "s1", ref if withref else None)
+            got = {r.name: {v.position: v.allele for v in r} for r in rs}
+            for name, m in meta.items():
+                det = got.get(name, {})
+                # kind 5 = multi-allelic record: NeverWrong / NoneIfNoOverlap are judged; AlwaysFound without reference is only stated for
+                # SNVs and simple indels, so it is not demanded here (kind not in {1,2,3})
+                evs.append({"ev": "Detect", "withref": withref, "segs": m["segs"], "deco": "multi:" + sc["multi"], "so": m["so"], "eo": m["eo"],
+                            "vars": [{"pos": P, "reflen": len(R), "altlen": max(len(a) for a in alts), "kind": 5, "truth": m["allele"],
+                                      "det": int(det.get(P, -1)), "clean": False, "unshiftable": True}]})
+        return evs
+    finally:
+        shutil.rmtree(d, ignore_errors=True)
 
 
 def _blocks(pos0, ops):
@@ -89,6 +185,8 @@ def _eqx(ref, pos0, ops, seq):
 
 
 def drive(sc):
+    if sc.get("multi"):
+        return _drive_multi(sc)
     import pysam
     from .. import world as W
     from ..phaseworld import workdir
@@ -211,6 +309,8 @@ def drive(sc):
 
 
 def nontrivial(sc, events):
+    if sc.get("multi"):
+        return any(e.get("ev") == "Detect" and e["vars"][0]["det"] >= 0 for e in events)
     full = part = False
     for e in events:
         if e.get("ev") != "Detect":
@@ -231,8 +331,10 @@ def signature(sc, events, clause):
     for e in events:
         if e.get("ev") == "Detect":
             for v in e["vars"]:
-                if v["det"] != v["truth"]:
+                if v["det"] != v["truth"] and v["kind"] in KINDS:
                     bad.add((KINDS[v["kind"]], "ref" if e["withref"] else "noref", "REF" if v["truth"] == 0 else "ALT"))
+    if sc.get("multi"):
+        return f"multi-allelic record shape={sc['multi']}"
     return f"kind={KINDS[sc['kind']]} len={sc['len']} mismatching={sorted(bad)[:4]}"
 
 
